@@ -4,9 +4,12 @@
 prove (HawkModel.Props.C04)  ->  build sanitized libhawk + harness/readio_h.c  ->  corpus, exhaustive chunkings of all
 short inputs, long inputs with cut points forced inside CRLF / separators / at the 2048 buffer edge, multi-file chains
 (custom handler and the real std.c chain over temp files)  ->
-  (a) correspondence: real code vs Lean model (records, NR, FNR, FILENAME and in.pos/len/eof after every record)
+  separator histories (BEGIN blocks assigning RS / FS values of every type with CONVFMT / IGNORECASE changes around them)  ->
+  (a) correspondence: real code vs Lean model (records, NR, FNR, FILENAME and in.pos/len/eof after every record; for the kinds that read
+      through std.c + sio + tio the model computes the chunks rio receives with C15's tio model: HawkModel/ReadIoStack.lean)
   (b) directly on the real code: same bytes under different chunkings must give the same records; a multi-file run must
-      equal the concatenation of the single-file runs (the end of a file ends the record)
+      equal the concatenation of the single-file runs (the end of a file ends the record); a history of separator assignments must
+      read what the history "assign the text fixed at the last assignment, once, as a string" reads, and what python's splitter says
 """
 import itertools, os, re, time, threading
 from concurrent.futures import ThreadPoolExecutor
@@ -41,7 +44,8 @@ LAYERS = {
     "U": "as Z / F (kind T) on byte strings that are NOT valid UTF-8 (stray continuation bytes, truncated sequences, 0xff): lib/tio.c's handling of "
          "illegal and incomplete sequences; no model (what the decoder substitutes is not modelled): all byte chunkings and the file read must agree",
 }
-STD_KINDS = "FGPQZUT"         # the chunking seen by rio.c is decided by sio/tio: in.pos/len are not compared with the model
+STD_KINDS = "FGPQZUT"         # the chunking seen by rio.c is decided by sio/tio
+STATE_MASKED_KINDS = "UT"     # ... which the model follows (HawkModel/ReadIoStack.lean: tio below rio) for valid UTF-8: in.pos/len/eof are compared there too
 BYTECUT_KINDS = "BYGQPZFUT"   # cut positions count bytes, not characters
 
 
@@ -446,6 +450,245 @@ def multifile_cases(rng, tier):
 
 
 # ---------------------------------------------------------------------------------------------------------------
+# histories of assignments to RS, FS, CONVFMT, IGNORECASE (MODE word `H…`, see harness/readio_h.c)
+# ---------------------------------------------------------------------------------------------------------------
+H_FMTS = ["%.6g", "%d", "%.2f", "%dab", "%.3g"]
+H_FLOATS = [("2.5", 2.5), ("0.25", 0.25), ("12.7", 12.7), ("-1.5", -1.5)]       # no value that is a rounding tie under a format above
+H_INTFLOATS = [("3.0", 3.0), ("1e3", 1000.0)]                                   # integral: the same text under every CONVFMT
+H_INTS = ["7", "12", "-3"]
+H_STRS = ["b", "", "ab", "a+", "é", "2.5"]
+H_BSTRS = ["b", "ab", "é"]
+H_CHARS = ["b", "é"]
+
+
+def h_text(val, fmt):
+    """the text of a value under a CONVFMT (python's own reading of it, independent of the Lean model); None for nil"""
+    t, x = val
+    if t == "n":
+        return None
+    if t in "sbki":
+        return x
+    lit, f = x
+    return str(int(f)) if f == int(f) else fmt % f
+
+
+def h_valword(val):
+    t, x = val
+    if t == "n":
+        return "n"
+    if t in "sbki":
+        return t + hx(x)
+    lit, f = x
+    return "d" + hx(lit) + "".join("~%s-%s" % (hx(fm), hx(h_text(val, fm))) for fm in H_FMTS)
+
+
+def h_ast(text):
+    """prefix tree of the subset of regular expressions the histories produce: characters, `.`, postfix `+`"""
+    atoms = []
+    for ch in text:
+        if ch == "+" and atoms:
+            atoms[-1] = "+," + atoms[-1]
+        elif ch == ".":
+            atoms.append("a")
+        else:
+            atoms.append("c" + hx(ch))
+    if not atoms:
+        return None
+    return ",".join(["."] * (len(atoms) - 1) + atoms)
+
+
+def h_final(ops):
+    """the English property: (IGNORECASE now, text fixed at the last RS assignment or None, the same for FS)"""
+    fmt, ic, rs, fs = "%.6g", 0, None, ("s", " ")
+    rst, fst = None, " "
+    for op in ops:
+        if op[0] == "c":
+            fmt = op[1]
+        elif op[0] == "g":
+            ic = op[1]
+        elif op[0] == "r":
+            rs, rst = op[1], h_text(op[1], fmt)
+        elif op[0] == "f":
+            fs, fst = op[1], h_text(op[1], fmt)
+    return ic, rs, rst, fs, fst
+
+
+def h_word(ops, prog=""):
+    ws = []
+    for op in ops:
+        if op[0] == "c":
+            ws.append("c" + hx(op[1]))
+        elif op[0] == "g":
+            ws.append("g%d" % op[1])
+        elif op[0] in "rf":
+            ws.append(op[0] + h_valword(op[1]))
+        else:
+            ws.append(op[0])                     # R, F
+    ic, rs, rst, fs, fst = h_final(ops)
+    tab = ""
+    if rst is not None and blen(rst) > 1 and h_ast(rst):
+        tab = "!%s:%s" % (hx(rst), h_ast(rst))
+    return "H" + ";".join(ws) + tab + (("@" + prog) if prog else "")
+
+
+def h_canonical(ops):
+    """the history the property says is equivalent: IGNORECASE as it is now, RS and FS assigned once, as strings holding the
+    text fixed at their last assignment (byte strings and characters stay what they are: their text does not depend on CONVFMT)"""
+    ic, rs, rst, fs, fst = h_final(ops)
+    out = [("g", ic)] if any(op[0] == "g" for op in ops) else []
+    for k, v, t in (("r", rs, rst), ("f", fs, fst)):
+        if v is None or not any(op[0] == k for op in ops):
+            continue
+        if v[0] == "n":
+            out += [(k, ("s", "x")), (k, v)]      # nil can only be reached by an assignment
+        elif v[0] in "di":
+            out.append((k, ("s", t)))
+        else:
+            out.append((k, v))
+    return out
+
+
+def h_ref_seen(ops, content, name="f1", byte_kind=False):
+    """the records the property promises for a history (python's own splitter, independent of the Lean model): the text fixed at
+    the last RS assignment decides - nil: lines; empty: paragraphs; one character: split at it (IGNORECASE does not apply); longer:
+    the text as a regular expression, case-insensitively if IGNORECASE is set now.  None where python has no say."""
+    ic, rs, rst, fs, fst = h_final(ops)
+    if rst is None:
+        parts = content.split("\n")
+    elif rst == "":
+        r = ref_records(M_P0, content)
+        return None if r is None else ["r%d:%d:%s:%s" % (i + 1, i + 1, name, hx(x)) for i, x in enumerate(r)]
+    elif byte_kind and blen(rst) != len(rst):
+        return None                                  # bytes matched against an expression compiled from characters
+    elif len(rst) == 1:
+        parts = content.split(rst)
+    else:
+        try:
+            parts = re.split(rst, content, flags=re.I if ic else 0)
+        except re.error:
+            return None
+    if parts and parts[-1] == "":
+        parts.pop()
+    return ["r%d:%d:%s:%s" % (i + 1, i + 1, name, hx(x)) for i, x in enumerate(parts)]
+
+
+def h_random_val(rng, fs=False):
+    r = rng.random()
+    if r < 0.40:
+        return ("d", rng.choice(H_FLOATS))
+    if r < 0.50:
+        return ("d", rng.choice(H_INTFLOATS))
+    if r < 0.60:
+        return ("i", rng.choice(H_INTS))
+    if r < 0.66:
+        return ("n", None)
+    if r < 0.82:
+        return ("s", rng.choice(H_STRS + (["?abcd"] if fs else [])))
+    if r < 0.92:
+        return ("b", rng.choice(H_BSTRS))
+    return ("k", rng.choice(H_CHARS))
+
+
+def h_random_ops(rng, var):
+    """structured: mostly the shape `CONVFMT = f1; VAR = value; CONVFMT = f2`, with IGNORECASE changes, self-assignments,
+    re-assignments and assignments to the other variable mixed in"""
+    ops = []
+    if rng.random() < 0.8:
+        ops.append(("c", rng.choice(H_FMTS)))
+    if rng.random() < 0.3:
+        ops.append(("g", rng.randrange(2)))
+    if rng.random() < 0.25:
+        ops.append((var, h_random_val(rng, var == "f")))
+        if rng.random() < 0.5:
+            ops.append(("c", rng.choice(H_FMTS)))
+    ops.append((var, h_random_val(rng, var == "f")))
+    if rng.random() < 0.2:
+        ops.append(("f" if var == "r" else "r", h_random_val(rng, var != "f")))
+    if rng.random() < 0.85:
+        ops.append(("c", rng.choice(H_FMTS)))
+    if rng.random() < 0.3:
+        ops.append(("g", rng.randrange(2)))
+    if rng.random() < 0.25:
+        ops.append((var.upper(),))
+    if rng.random() < 0.15:
+        ops.append(("c", rng.choice(H_FMTS)))
+    return ops
+
+
+def h_content(rng, ops, var):
+    """a short input that holds every text the separator value has under the formats of the history, in both cases"""
+    texts = []
+    fmts = [op[1] for op in ops if op[0] == "c"] + ["%.6g"]
+    for op in ops:
+        if op[0] == var:
+            for fm in fmts:
+                t = h_text(op[1], fm)
+                if t and t not in texts:
+                    texts.append(t)
+    body = "a"
+    for i, t in enumerate(texts[:3]):
+        body += t + "bcde"[i % 4]
+    if rng.random() < 0.5:
+        body += "\n" + ("AB" if "ab" in texts else "x")
+    if rng.random() < 0.3:
+        body = body.replace("a", "a\n", 1)
+    return body[:9]
+
+
+def history_cases(rng, tier):
+    """-> list of (ops, variable, [(line of the history, line of the canonical history, modelled?)], nontrivial?)"""
+    out = []
+    fixed = [
+        ([("c", "%d"), ("r", ("d", ("2.5", 2.5))), ("c", "%.6g")], "r"),        # the crash of DESIGN.md section 11
+        ([("c", "%d"), ("f", ("d", ("2.5", 2.5))), ("c", "%.6g")], "f"),
+        ([("f", ("d", ("2.5", 2.5))), ("c", "%d")], "f"),                       # splits by "2", matches with /2.5/
+        ([("r", ("d", ("2.5", 2.5))), ("c", "%d")], "r"),
+        ([("r", ("s", "é"))], "r"),                                        # one character, two bytes: the byte reader
+        ([("r", ("b", "é"))], "r"),
+        ([("r", ("s", "ab")), ("g", 1)], "r"),
+        ([("r", ("s", "x")), ("r", ("n", None))], "r"),
+        ([("c", "%dab"), ("r", ("d", ("2.5", 2.5))), ("c", "%d"), ("R",)], "r"),
+    ]
+    n = 40 if tier == "quick" else 400
+    hs = fixed + [(h_random_ops(rng, v), v) for v in (rng.choice("rrf") for _ in range(n))]
+    for ops, var in hs:
+        content = h_content(rng, ops, var)
+        can = h_canonical(ops)
+        fmts_after = False
+        nontrivial = False
+        fmt = "%.6g"
+        at = {}
+        for op in ops:
+            if op[0] == "c":
+                fmt = op[1]
+            elif op[0] in "rf":
+                at[op[0]] = (op[1], fmt)
+        for k, (v, f0) in at.items():
+            if h_text(v, f0) != h_text(v, fmt):
+                nontrivial = True
+        lines = []
+        if var == "r":
+            for kind in ("X", "Y", "F"):
+                lines.append((case_line(kind, h_word(ops), [("f1", content, [])]), case_line(kind, h_word(can), [("f1", content, [])]), True))
+        else:
+            cuts = [c for c in range(1, len(content)) if rng.random() < 0.4]
+            lines.append((case_line("C", h_word(ops, "F1"), [("f1", content, cuts)]), case_line("C", h_word(can, "F1"), [("f1", content, cuts)]), False))
+            lines.append((case_line("F", h_word(ops, "F1"), [("f1", content, [])]), case_line("F", h_word(can, "F1"), [("f1", content, [])]), False))
+        out.append((ops, var, lines, nontrivial))
+    return out
+
+
+def h_show(ops):
+    def lit(v):
+        t, x = v
+        return {"n": "unset", "s": '"%s"' % x, "b": '@b"%s"' % x, "k": "'%s'" % x, "i": x}.get(t) if t != "d" else x[0]
+    names = {"c": "CONVFMT", "g": "IGNORECASE", "r": "RS", "f": "FS"}
+    return "BEGIN { " + "; ".join("RS = RS" if op[0] == "R" else "FS = FS" if op[0] == "F" else
+                                  '%s = "%s"' % (names[op[0]], op[1]) if op[0] == "c" else
+                                  "%s = %s" % (names[op[0]], op[1] if op[0] == "g" else lit(op[1])) for op in ops) + " }"
+
+
+# ---------------------------------------------------------------------------------------------------------------
 # running
 # ---------------------------------------------------------------------------------------------------------------
 class Runner:
@@ -534,9 +777,9 @@ def nmasks(line):
 
 def canon(line, outs):
     """what is compared with the model: everything, except in.pos/len/eof for the kinds where sio decides the chunking"""
-    if line[0] in NOMODEL_KINDS:
+    if line[0] in NOMODEL_KINDS or "@F" in line.split()[1]:      # program F (fields by FS): field splitting is not in this model
         return ["-"] * len(outs)
-    return [mask_state(x) for x in outs] if line[0] in STD_KINDS else list(outs)
+    return [mask_state(x) for x in outs] if line[0] in STATE_MASKED_KINDS else list(outs)
 
 
 # ---------------------------------------------------------------------------------------------------------------
@@ -731,12 +974,30 @@ def ref_seen(mode, files):
     return out
 
 
-THEOREMS = ("records_chunk_independent, records_chunk_independent_regex_partial, console_records_eq_spec, file_end_ends_record "
-            "(HawkModel/Props/C04.lean) are about HawkModel/ReadIo.lean")
+THEOREMS = ("records_chunk_independent, records_chunk_independent_regex_partial, console_records_eq_spec, file_end_ends_record, "
+            "mode_fixed_at_last_assignment, regex_mode_only_with_compiled_regex (HawkModel/Props/C04.lean) are about HawkModel/ReadIo.lean")
+
+
+def translate(ctx):
+    """extract/rio_sizes.py: the buffer sizes of rio/sio from the headers of the checked tree -> lean/HawkModel/Gen/RioSizes.lean"""
+    import importlib.util
+    spec = importlib.util.spec_from_file_location("rio_sizes", os.path.join(C.VERIF, "extract", "rio_sizes.py"))
+    ex = importlib.util.module_from_spec(spec)
+    spec.loader.exec_module(ex)
+    txt, vals = ex.generate(C.REPO)
+    if C.write_if_changed(os.path.join(C.LEAN, "HawkModel", "Gen", "RioSizes.lean"), txt):
+        ctx.log("extract: lean/HawkModel/Gen/RioSizes.lean regenerated: %r" % vals)
+    return vals
 
 
 def run(ctx):
+    try:
+        sizes = translate(ctx)
+    except Exception as e:
+        ctx.problem("corr", "translator extract/rio_sizes.py failed on this tree: %s" % str(e)[:400], str(e), found_input=False)
+        return C.finish(ctx, [], 1, 0, "translator failed", ["translator failure"], extra_cov=dict(obligations=1, discharged=0))
     proof = C.prove(ctx, "HawkModel.Props.C04", leanchecker=(ctx.tier == "thorough"))
+    proof_stack = C.prove(ctx, "HawkModel.Props.C04Stack", leanchecker=(ctx.tier == "thorough"))      # bytes -> characters -> records (tio below rio)
     libdir = C.build_libhawk(ctx)
     exe = C.cc_harness(ctx, HARNESS, link_lib=libdir)
     C.driver_exe(ctx)
@@ -745,7 +1006,7 @@ def run(ctx):
     ev = dict(n=0, nontrivial=0)
     dist = {}
     samples = []
-    t_budget_end = ctx.t0 + (70 if ctx.tier == "quick" else 1000)
+    t_budget_end = ctx.t0 + (90 if ctx.tier == "quick" else 1000)
     oracle_hits = []            # (sig, what, replay_text)   property broken on the real code, concrete input
     corr_diffs = []             # (case line, status, stderr) model and real code differ
     hit_keys = set()
@@ -933,6 +1194,8 @@ def run(ctx):
     if corpus:
         co, mo, st, ce = run_both(corpus)
         oracle_status(corpus, st, ce, "corpus")
+        if st != "ok":
+            co, mo = [], []          # the harness died on a line: what follows it is missing, nothing below can be decided
         ci = 0
         groups = {}
         for line in corpus:
@@ -1031,6 +1294,103 @@ def run(ctx):
     samples.append(groups[-1][1][0][:100] + "…")
 
     ctx.log("long inputs done")
+    # ---------------- histories of assignments to RS / FS / CONVFMT / IGNORECASE before the reads ---------------------------------
+    hc = history_cases(rng, ctx.tier)
+    hist_hit = [False]
+
+    def hist_lines(ops, var, kinds_prog):
+        return [(case_line(k, h_word(ops, pg), fl), m) for k, pg, fl, m in kinds_prog]
+
+    def hist_status_hit(ops, var, line, st, ce):
+        """a crash / sanitizer report / hang on one history line: shrink the history, report once"""
+        if hist_hit[0] or len(oracle_hits) >= MAX_HITS:
+            return
+        hist_hit[0] = True
+        kind, modew, files = parse_case(line)
+        pg = modew.split("@")[1] if "@" in modew else ""
+
+        def bad(sub):
+            if not sub:
+                return False
+            _, s2, _ = R.impl([case_line(kind, h_word(list(sub), pg), files)], wd=20)
+            return s2 != "ok"
+        small = C.ddmin(list(ops), bad, max_tests=60)
+        if not bad(small):
+            small = list(ops)
+        sl = case_line(kind, h_word(small, pg), files)
+        co2, st2, ce2 = R.impl([sl], wd=20)
+        oracle_hits.append((None, "%s while reading with a separator assigned earlier: %s on the input %r (kind %s: %s); the way of reading/splitting is selected by a text "
+                            "converted again at the read, not by what the assignment prepared" % (st2, h_show(small), files[0][1], kind, LAYERS.get(EXPAND.get(kind, kind), "?")),
+                            "# harness status %s; the program's BEGIN block: %s\n%s\n%s" % (st2, h_show(small), sl, (ce2 or ce)[-2500:])))
+
+    def hist_differs_hit(ops, la, lb, oa, ob):
+        key = ("history", la[0])
+        if key in hit_keys or len(oracle_hits) >= MAX_HITS:
+            return
+        hit_keys.add(key)
+        oracle_hits.append((None, "the separator in force is not the one fixed at its last assignment: %s and %s must read the same records/fields from %r but give %s vs %s" % (
+            h_show(ops), h_show(h_canonical(ops)), parse_case(la)[2][0][1], records_only(oa)[:300], records_only(ob)[:300]),
+            "# same bytes, same chunking; first line: the history, second line: the separators assigned once as strings holding the text of the last assignment\n" + la + "\n" + lb + "\n# impl:\n" + oa + "\n" + ob + "\n"))
+
+    hl = []                                   # (ops, var, history line, canonical line, modelled)
+    for ops, var, lines, nontrivial in hc:
+        for la, lb, modelled in lines:
+            hl.append((ops, var, la, lb, modelled))
+        if nontrivial:
+            ev["nontrivial"] += 1
+        bump("history:%s%s" % ("RS" if var == "r" else "FS", ":text-changes" if nontrivial else ""))
+    B = 8
+
+    def do_hist(part):
+        ilines = [x for _, _, la, lb, _ in part for x in (la, lb)]
+        co, st, ce = R.impl(ilines, wd=30)
+        mlines = [la for _, _, la, _, modelled in part if modelled]
+        mo = R.model(mlines) if (mlines and st == "ok") else []
+        return part, ilines, co, st, ce, mo
+
+    with ThreadPoolExecutor(max_workers=NWORK) as ex:
+        hres = list(ex.map(do_hist, [hl[i0:i0 + B] for i0 in range(0, len(hl), B)]))
+    for part, ilines, co, st, ce, mo in hres:
+        if st != "ok":
+            for ops, var, la, lb, modelled in part:               # which line
+                c1, s1, e1 = R.impl([la], wd=20)
+                if s1 != "ok":
+                    hist_status_hit(ops, var, la, s1, e1)
+                    break
+            else:
+                oracle_status(ilines, st, ce, "separator histories")
+            continue
+        ci = mi = 0
+        for ops, var, la, lb, modelled in part:
+            k = nmasks(la) if is_multi(la) else 1
+            a, b2 = co[ci:ci + k], co[ci + k:ci + 2 * k]
+            ci += 2 * k
+            ev["n"] += 2 * k
+            if len(a) == k and len(b2) == k:
+                ra, rb = [records_only(x) for x in a], [records_only(x) for x in b2]
+                if ra != rb:
+                    j = next(j for j in range(k) if ra[j] != rb[j])
+                    hist_differs_hit(ops, expand_x(la, j) if is_multi(la) else la, expand_x(lb, j) if is_multi(lb) else lb, a[j], b2[j])
+                j = next((j for j in range(1, k) if ra[j] != ra[0]), None)
+                if j is not None:
+                    oracle_chunkdep(parse_case(la)[1], expand_x(la, 0), expand_x(la, j))
+                exp = h_ref_seen(ops, parse_case(la)[2][0][1], byte_kind=(la[0] in "BYGQ")) if var == "r" else None
+                if exp is not None and ra[0].split() != exp and ("href", la[0]) not in hit_keys and len(oracle_hits) < MAX_HITS:
+                    hit_keys.add(("href", la[0]))
+                    l0 = expand_x(la, 0) if is_multi(la) else la
+                    oracle_hits.append((None, "records differ from what the last RS assignment calls for: %s on %r (kind %s): got %s expected %s" % (
+                        h_show(ops), parse_case(la)[2][0][1], la[0], ra[0][:300], " ".join(exp)[:300]),
+                        "# real code vs python reference splitter for the text fixed at the last RS assignment (%s)\n" % h_show(ops) + l0 + "\n# impl:\n" + a[0] + "\n# reference:\n" + " ".join(exp) + "\n"))
+            if modelled:
+                m = mo[mi:mi + k]
+                mi += k
+                if canon(la, a) != canon(la, m):
+                    j = next((j for j in range(k) if j >= len(a) or j >= len(m) or canon(la, [a[j]]) != canon(la, [m[j]])), 0)
+                    note_corr(expand_x(la, j) if is_multi(la) else la, st, ce)
+    samples.append(hl[0][2][:200])
+    samples.append(hl[-1][2][:200])
+
+    ctx.log("separator histories done")
     # ---------------- exhaustive: all chunkings of all short inputs ---------------------------------------------------------
     xl = exhaustive_lines(ctx.tier)
     xl.sort(key=lambda l: (len(l.split("=")[1]), l[2:], l[0]))   # short inputs of every mode first
@@ -1125,17 +1485,24 @@ def run(ctx):
             "around multiples of 2048, cut points inside CRLF / inside separators / at 2047,2048,2049, four chunkings per input) + ALL 2^(n-1) chunkings "
             "of every input up to a per-mode length bound (alphabets reduced by symmetry). Property oracles on the real code alone: same bytes under "
             "different chunkings / handlers give the same records; a chain of files equals its files read one at a time; newline and single-character "
-            "modes agree with a python reference splitter; no sanitizer report, signal or hang. Then every record's NR, FNR, FILENAME, text and "
+            "modes agree with a python reference splitter; no sanitizer report, signal or hang. SEPARATOR HISTORIES: BEGIN blocks that assign RS / FS "
+            "values of every type (float, integral float, int, unset, string, byte string, character) with CONVFMT / IGNORECASE changes and self-assignments "
+            "before and after, read under all chunkings in characters and bytes and through std.c; oracle: same records/fields as the history that assigns "
+            "the text fixed at the last assignment once, as a string (python computes that text itself). Then every record's NR, FNR, FILENAME, text and "
             "in.pos/in.len/in.eof after it is compared with the Lean model. distinct_nontrivial = (mode, input, chunking) triples with a chunk edge "
             "inside or adjacent to a separator occurrence (exhaustive part, computed per input as 2^(n-1) - 2^(n-1-k), k = such positions) + "
             "long-input cases + multi-file chains with >= 2 files")
-    return C.finish(ctx, [proof], ev["n"], ev["nontrivial"], rule, samples,
+    return C.finish(ctx, [proof, proof_stack], ev["n"], ev["nontrivial"], rule, samples,
                     extra_cov=dict(layers=LAYERS, case_distribution=dist, exhaustive_inputs=len(xl), exhaustive_chunkings_skipped_for_time=state["skipped"], workers=NWORK,
-                                   oracle_hits=len(oracle_hits), model_differences=len(corr_diffs)),
+                                   oracle_hits=len(oracle_hits), model_differences=len(corr_diffs), extracted_buffer_sizes=sizes),
                     trusted=["rio.c/std.c/run.c record reading modelled by hand in HawkModel/ReadIo.lean (error returns of the handler, allocation failure, "
                              "the nrflt record filter and mixed byte/char reading are not modelled; hawk_rtx_readiobytes is the same text over bytes and is not run)",
+                             "RS/FS assignment (run.c set_separator) and the readers' mode selection are modelled (Env.step, selRead, selReadBytes, howSplit); the conversion "
+                             "of a number to text under a CONVFMT is a parameter of the model (the check passes python's own table of it and the comparison with the real "
+                             "code checks the table); field splitting itself is C03's model: FS histories are decided by the property oracle only",
                              "regex RS: the matcher is a parameter of the model; the driver's matcher is a small leftmost-longest engine used only for the RS patterns generated here",
-                             "sio/tio (decoding bytes into characters, its own buffering) below the console handler is not modelled; the std.c chain is exercised over real temp files"],
+                             "sio/tio below the console handler: C15's model (HawkModel/Tio.lean) composed with the record reader in Props/C04Stack.lean (tioChunks); the composition is proved, "
+                             "its correspondence with the code is C15's harness (tio) plus the kinds F/G/P/Q/Z here (std.c + sio + tio over real files and pipes)"],
                     assumptions=["handler returns >= 0 (read errors abort the program before a record is produced)",
                                  "regex RS: chunk independence only under `Stable m`; RS that can match the empty string excluded (hawk emits empty records forever)"])
 
@@ -1160,7 +1527,7 @@ def replay(ctx, path):
         for j in range(k):
             a = co[ci + j] if ci + j < len(co) else "<none>"
             b = mo[ci + j] if ci + j < len(mo) else "<none>"
-            if l[0] in STD_KINDS:
+            if l[0] in STATE_MASKED_KINDS:
                 a, b = mask_state(a), mask_state(b)
             print("%s\n  impl : %s\n  model: %s" % (l[:200], a, b))
             if a != b:
